@@ -52,6 +52,32 @@ func caseValues(dir, fn string) []int64 {
 	return vals
 }
 
+// payloadTypeNames lists the payload struct types GetPayload instantiates (new(payload.X)), sorted, unique.
+func payloadTypeNames() []string {
+	p := wiretok.Load("core/types/interfaces")
+	fd := p.Funcs["GetPayload"]
+	if fd == nil {
+		ex.Die("GetPayload not found")
+	}
+	seen := map[string]bool{}
+	var res []string
+	ast.Inspect(fd, func(n ast.Node) bool {
+		c, ok := n.(*ast.CallExpr)
+		if !ok {
+			return true
+		}
+		if id, ok := c.Fun.(*ast.Ident); ok && id.Name == "new" && len(c.Args) == 1 {
+			if sel, ok := c.Args[0].(*ast.SelectorExpr); ok && !seen[sel.Sel.Name] {
+				seen[sel.Sel.Name] = true
+				res = append(res, sel.Sel.Name)
+			}
+		}
+		return true
+	})
+	sort.Strings(res)
+	return res
+}
+
 func natList(name string, vs []int64) {
 	q := make([]string, len(vs))
 	for i, v := range vs {
@@ -143,5 +169,25 @@ func main() {
 	}
 	wiretok.Print("streams", ss)
 	wiretok.PrintMakes("makes", ss)
+
+	// every payload type GetPayload can return, every output payload type, the transaction and the
+	// block: writer and reader fully inlined (helpers, nested types, every case of a dispatch on a
+	// decoded field) — for the writer/reader mirror lemma, which needs no schema
+	wiretok.Deep = true
+	wiretok.WalkCases = true
+	var ms []wiretok.Stream
+	for _, n := range payloadTypeNames() {
+		ms = append(ms, wiretok.Pair(n, P, n, "Serialize", "Deserialize"))
+	}
+	for _, n := range []string{"DefaultOutput", "VoteOutput", "Mapping", "CrossChainOutput", "Withdraw", "ReturnSideChainDeposit", "ExchangeVotesOutput"} {
+		ms = append(ms, wiretok.Pair("output."+n, O, n, "Serialize", "Deserialize"))
+	}
+	ms = append(ms, wiretok.Pair("Confirm", P, "Confirm", "Serialize", "Deserialize"))
+	ms = append(ms, wiretok.Pair("Header", C, "Header", "Serialize", "Deserialize"))
+	ms = append(ms, wiretok.Pair("Attribute", C, "Attribute", "Serialize", "Deserialize"))
+	ms = append(ms, wiretok.Pair("Input", C, "Input", "Serialize", "Deserialize"))
+	ms = append(ms, wiretok.Pair("Output", C, "Output", "Serialize", "Deserialize"))
+	ms = append(ms, wiretok.Pair("Program", "core/contract/program", "Program", "Serialize", "Deserialize"))
+	wiretok.Print("mirrorStreams", ms)
 	ex.Footer("C04")
 }
